@@ -1,4 +1,5 @@
 import PyaModel.Proofs.C20
+import PyaModel.Proofs.C20Union
 import PyaModel.Generated.ClassTable
 /-!
 # Props/C20 — type evaluation functions follow docs/type_evaluation.md
@@ -34,6 +35,24 @@ theorem eval_nonunion_eq_ref_partial (tbl : ClassTable) (ps : Positions) (vars :
     evaluate tbl ps (Env.ofList vars) retAnn body = refRun tbl ps (Env.ofList vars) retAnn body := by
   have h := evalBlock_nonunion tbl ps (Env.ofList vars) body [] (nu_of_hyps tbl vars body hnu hD) hwf
   simp [evaluate, refRun, h, finalize]
+
+/-! Non-vacuity: the call `f(1, 1)` of the example function of Proofs/C20Union.lean (`exBody`: a
+comparison, an `elif` with `is_positional(x) and is_of_type(y, int)`, `show_error`, three returns) meets
+the hypotheses; the theorem then gives `int` and the message `E1`. -/
+def exVarsNU : VarMap := [("x", .known (.int 1)), ("y", .known (.int 1))]
+example : Stmt.wfL exPs (Env.ofList exVarsNU) exBody = true := by decide
+example : nonUnionVars exVarsNU = true := by decide
+example : D20_retyped liveTable exVarsNU exBody = false := by
+  have hx : List.lookup "x" exVarsNU = some (.known (.int 1)) := by rfl
+  have hy : List.lookup "y" exVarsNU = some (.known (.int 1)) := by rfl
+  simp [D20_retyped, exBody, Stmt.testsL, Stmt.tests, Cond.tests, Cond.testsL, retypedTest, hx, hy, flatten1,
+    tag_k1_k1, tag_int_k1]
+
+/-- **The context of a call.** Unless a parameter whose default is `...` is omitted (class
+`ellipsisDefault`), the variables and positions pyanalyze hands to the evaluator are the ones the document
+prescribes — for every signature and every call shape. -/
+theorem context_eq_specContext (c : EvalCase) (h : D20_ellipsisDefault c = false) :
+    context c = specContext c := context_eq_specContext' c h
 
 /-! ## Argument kinds -/
 
@@ -100,5 +119,123 @@ theorem exclude_any_false_permissive (tbl : ClassTable) (ps : Positions) (e : En
     (evalCond tbl ps e (.ofType v t false)).left.isSome = true ∧
     refCond tbl ps e (.ofType v t false) = true := by
   simp [evalCond, refCond, ofTypeRet, ofTypeVal, hv, ca_perm_any]
+
+/-! ## Union arguments: the full statement and the witnesses of the exception classes -/
+
+/-- **Full-strength statement of the union clause** (false of the pinned pyanalyze: five witnesses
+below). For a call with union-typed arguments the evaluator's type equals (as a union, up to `==`)
+the union of the reference results of the member-wise calls, and a `show_error` fires iff it fires for
+some member. -/
+def EvalUnionDistributes (tbl : ClassTable) : Prop :=
+  ∀ (ps : Positions) (vars : VarMap) (retAnn : Ty) (body : List Stmt),
+    Stmt.wfL ps (Env.ofList vars) body = true →
+    Ty.beq (evaluate tbl ps (Env.ofList vars) retAnn body).1 (refUnion tbl ps vars retAnn body).1 = true ∧
+    ∀ m, m ∈ (evaluate tbl ps (Env.ofList vars) retAnn body).2 ↔ m ∈ (refUnion tbl ps vars retAnn body).2
+
+/-- **C20, one union-typed argument, outside the exception classes.** For every class table, every
+body of the grammar whose conditions only name parameters, and every call in which exactly one
+variable `x` holds a union (a normal one: ≥ 2 hashable non-union members, no duplicates), all other
+variables hold hashable non-unions and the returned types are values `unite_values` leaves alone:
+if the run does not fall in class `fallThrough` (a partially returning statement followed by more
+statements), `boolOpDrop` (an `and`/`or` deciding early after a partial operand), `overlapNarrow` /
+`retyped` (a type test whose positive narrowing is not exactly "keep the matching members"), then the
+type the model of pyanalyze's evaluator computes is `==` (as a union) to the union of the reference
+interpreter's results for the members of `x` evaluated separately, and a `show_error` message fires
+iff it fires for some member. -/
+theorem eval_union_distributes_partial (tbl : ClassTable) (ps : Positions) (vars : VarMap)
+    (retAnn : Ty) (body : List Stmt) (x : String)
+    (hwf : Stmt.wfL ps (Env.ofList vars) body = true)
+    (hx : unionArgOK x vars = true) (ho : othersOK x vars = true) (hr : retsOK retAnn body = true)
+    (h1 : D20_fallThrough tbl ps (Env.ofList vars) body = false)
+    (h2 : D20_boolOpDrop tbl ps (Env.ofList vars) body = false)
+    (h3 : D20_overlapNarrow tbl vars body = false)
+    (h4 : D20_retyped tbl vars body = false) :
+    Ty.beq (evaluate tbl ps (Env.ofList vars) retAnn body).1 (refUnion tbl ps vars retAnn body).1 = true ∧
+    ∀ msg, msg ∈ (evaluate tbl ps (Env.ofList vars) retAnn body).2 ↔
+      msg ∈ (refUnion tbl ps vars retAnn body).2 :=
+  eval_union_core tbl ps vars retAnn body x hwf hx ho hr h1 h2 h3 h4
+
+
+/-! ### Non-vacuity of `eval_union_distributes_partial`
+
+`def f(x, y): if x == 1: show_error("E1"); return int` / `elif is_positional(x) and is_of_type(y, int):
+return str` / `else: return bytes`, called as `f(v, 1)` with `v: Literal[1] | str` (`exPs`, `exVars`,
+`exBody` in Proofs/C20Union.lean): every hypothesis holds, and the theorem yields `int | str`, `E1`. -/
+example : Stmt.wfL exPs (Env.ofList exVars) exBody = true := by decide
+example : othersOK "x" exVars = true := by decide
+example : retsOK (.typed C.complex) exBody = true := by decide
+example : unionArgOK "x" exVars = true := by
+  simp [unionArgOK, oneUnionB, exVars, wU, goodMembers, isUnionVal, Ty.hashEq, Obj.hashable, Obj.same, Obj.tag,
+    Obj.pyEq, hasDupMembers.dupIn, Ty.memBy, Ty.beq]
+example : D20_retyped liveTable exVars exBody = false := ex_retyped
+example : D20_overlapNarrow liveTable exVars exBody = false := ex_overlap
+example : D20_fallThrough liveTable exPs (Env.ofList exVars) exBody = false := ex_fall
+example : D20_boolOpDrop liveTable exPs (Env.ofList exVars) exBody = false := ex_drop
+example :
+    Ty.beq (evaluate liveTable exPs (Env.ofList exVars) (.typed C.complex) exBody).1
+      (refUnion liveTable exPs exVars (.typed C.complex) exBody).1 = true :=
+  (eval_union_distributes_partial liveTable exPs exVars (.typed C.complex) exBody "x" (by decide)
+    (by simp [unionArgOK, oneUnionB, exVars, wU, goodMembers, isUnionVal, Ty.hashEq, Obj.hashable, Obj.same,
+      Obj.tag, Obj.pyEq, hasDupMembers.dupIn, Ty.memBy, Ty.beq])
+    (by decide) (by decide) ex_fall ex_drop ex_overlap ex_retyped).1
+
+/-- class `fallThrough`: `if x == 1: return int` / `if x == 1: return str else: return bytes` on
+`x: Literal[1] | str` gives `int | str | bytes`; member-wise: `Literal[1]` → `int`, `str` → `bytes`. -/
+theorem fallThrough_witness :
+    (evaluate liveTable [] (Env.ofList [("x", wU)]) (.typed C.complex) wFallBody).1 =
+      .union [.typed C.int, .typed C.str, .typed C.bytes] ∧
+    (refUnion liveTable [] [("x", wU)] (.typed C.complex) wFallBody).1 =
+      .union [.typed C.int, .typed C.bytes] := by
+  rw [fallThrough_model, fallThrough_ref]; exact ⟨rfl, rfl⟩
+
+/-- class `retyped` (a non-union argument): `if is_of_type(x, int, exclude_any=False):` /
+`if is_of_type(x, int): return int else: return str` on `x: Any` gives `int`; the document: `str`. -/
+theorem retyped_witness :
+    (evaluate liveTable [] (Env.ofList [("x", .any)]) (.typed C.float) wRetBody).1 = .typed C.int ∧
+    (refRun liveTable [] (Env.ofList [("x", .any)]) (.typed C.float) wRetBody).1 = .typed C.str := by
+  rw [retyped_model, retyped_ref]; exact ⟨rfl, rfl⟩
+
+/-- class `overlapNarrow`: `if is_of_type(x, int): (if x == 1: return int else: return str) else:
+return bytes` on `x: object | Literal[1]` gives `int | str | bytes`; member-wise: `bytes | int`. -/
+theorem overlapNarrow_witness :
+    (evaluate liveTable [] (Env.ofList [("x", wOvU)]) (.typed C.complex) wOvBody).1 =
+      .union [.typed C.int, .typed C.str, .typed C.bytes] ∧
+    (refUnion liveTable [] [("x", wOvU)] (.typed C.complex) wOvBody).1 =
+      .union [.typed C.bytes, .typed C.int] := by
+  rw [overlapNarrow_model, overlapNarrow_ref]; exact ⟨rfl, rfl⟩
+
+/-- class `boolOpDrop`: `if is_of_type(x, int) or is_of_type(x, str): (if x == 0: return int else:
+return str) else: return bytes` on `x: Literal[0] | str` gives `str`: the `Literal[0]` member, set
+aside by the first operand, is lost; member-wise: `int | str`. -/
+theorem boolOpDrop_witness :
+    (evaluate liveTable [] (Env.ofList [("x", wDropU)]) (.typed C.complex) wDropBody).1 = .typed C.str ∧
+    (refUnion liveTable [] [("x", wDropU)] (.typed C.complex) wDropBody).1 =
+      .union [.typed C.int, .typed C.str] := by
+  rw [boolOpDrop_model, boolOpDrop_ref]; exact ⟨rfl, rfl⟩
+
+/-- class `ellipsisDefault`: the document's `with_defaults` example, `def f(x: int = ...) -> bytes:
+if is_of_type(x, int): return str` called as `f()`, gives `bytes` (x is the Ellipsis object); the
+document: x is `int`, so `str`. -/
+theorem ellipsisDefault_witness :
+    evalCall liveTable wEllCase = some (.typed C.bytes, []) ∧
+    refCall liveTable wEllCase = some (.typed C.str, []) :=
+  ⟨ellipsisDefault_model, ellipsisDefault_ref⟩
+
+/-- class `multiError`: of two executed `show_error`s only the first is reported. -/
+theorem multiError_witness : reported ["E1", "E2"] = ["E1"] ∧ reported ["E1", "E2"] ≠ ["E1", "E2"] := by
+  decide
+
+/-- Hence the two full statements fail on the live table. -/
+theorem evalNonunionEqRef_live_false : ¬ EvalNonunionEqRef liveTable := by
+  intro h
+  have := h [] [("x", .any)] (.typed C.float) wRetBody (by decide) (by decide)
+  rw [retyped_model, retyped_ref] at this
+  simp [C.int, C.str] at this
+
+theorem evalUnionDistributes_live_false : ¬ EvalUnionDistributes liveTable := by
+  intro h
+  have := (h [] [("x", wDropU)] (.typed C.complex) wDropBody (by decide)).1
+  rw [boolOpDrop_model, boolOpDrop_ref] at this
+  simp [Ty.beq] at this
 
 end Pya.C20
